@@ -171,6 +171,11 @@ def one(ctx, shard, lk, fk, fwarm, D, R1, R2, method, uf, ws, vi, seed, x):
     ctx.close(site + ".call_value", got2, ref, facts=facts, tol=1e-7)
     if res.Sigma is not None:
         ctx.count("results_with_covariance")
+    # the result is itself a measure: product() over its components evaluates to the product of all of them
+    with ctx.guard(site + ".then_product", facts):
+        ctx.close(site + ".then_product", np.asarray(res.product().evaluate_ln(J(x))), np.sum(ref, axis=0, keepdims=True), facts=facts)
+    if res.R != ref.shape[0]:
+        ctx.fail(site + ".batch_size", "malformed_batch", observed=int(res.R), expected=int(ref.shape[0]), facts=facts)
     unchanged(ctx, site + ".left_operand", ub, u)
     unchanged(ctx, site + ".factor_operand", fb, f)
     if vi == 0 and R1 == 2 and R2 == 2 and ws == "cold" and uf:
